@@ -94,6 +94,34 @@ impl CmdSet for Wide {
     const NAMES: &'static [&'static str] = &["led-開", "led-閉", "go-😀", "go-😁", "€a", "€"];
 }
 
+#[derive(Command)]
+#[command(help_title = "Store")]
+pub enum Store {
+    Get,
+    Set,
+}
+
+#[derive(Command)]
+#[command(help_title = "Hardware")]
+pub enum Hardware {
+    GetLed,
+    GetAdc,
+    Reset,
+    SetAll,
+}
+
+/// a name of an earlier group is a proper prefix of names of a later group
+#[derive(CommandGroup)]
+pub enum Grouped2 {
+    Store(Store),
+    Hardware(Hardware),
+}
+
+impl CmdSet for Grouped2 {
+    const ID: &'static str = "grouped2";
+    const NAMES: &'static [&'static str] = &["get", "set", "get-led", "get-adc", "reset", "set-all"];
+}
+
 /// the name set of the small design-level models (MC_Cli, NameSet = "tiny")
 #[derive(Command)]
 pub enum Tiny {
@@ -166,9 +194,13 @@ macro_rules! with_set {
                 type $S = $crate::sets::Wide;
                 $body
             }
+            "grouped2" => {
+                type $S = $crate::sets::Grouped2;
+                $body
+            }
             other => panic!("unknown command set {other}"),
         }
     };
 }
 
-pub const SET_IDS: &[&str] = &["raw", "leds", "mixed", "grouped", "tiny", "wide"];
+pub const SET_IDS: &[&str] = &["raw", "leds", "mixed", "grouped", "tiny", "wide", "grouped2"];
